@@ -70,7 +70,8 @@ pub fn enc(s: &str) -> String {
     if s.is_empty() {
         "~".to_string()
     } else {
-        s.to_string()
+        // a blank inside a name is written as U+2423 (the line protocol is blank separated)
+        s.replace(' ', "\u{2423}")
     }
 }
 fn encs(v: &[String]) -> String {
@@ -358,6 +359,7 @@ fn alphabet(names: &[String]) -> Vec<MCall> {
         vec![],
         vec![s("z")],
         vec![s("a,b")],
+        vec![s(" a")],
     ];
     let mut code = 1;
     for fps in pool.iter() {
@@ -382,6 +384,17 @@ fn alphabet(names: &[String]) -> Vec<MCall> {
         },
     ));
     code += 1;
+    for n in [" a", "a "] {
+        al.push(MCall::Deriv(
+            s(n),
+            Probe {
+                arity: 1,
+                code,
+                len: None,
+            },
+        ));
+        code += 1;
+    }
     for n in ["a", "b", "z"] {
         for ar in [1usize, 2] {
             al.push(MCall::Deriv(
@@ -425,6 +438,10 @@ pub fn stream_mbuilder(out: &mut Out, seed: u64, thorough: bool) {
         vec![s("a,b")],
         vec![s("")],
         vec![s("a"), s("b"), s("z")],
+        // names that differ only by surrounding blanks are different (and legal) names
+        vec![s(" a")],
+        vec![s("a"), s(" a")],
+        vec![s("a "), s("b")],
     ];
     let maxlen = if thorough { 4 } else { 3 };
     for (ni, names) in name_lists.iter().enumerate() {
@@ -593,7 +610,13 @@ pub fn random_session(rng: &mut Rng, mutate: bool) -> (Vec<String>, Vec<MCall>, 
                             p.arity = (p.arity % 10) + 1;
                         } else if !fps.is_empty() {
                             let j = rng.below(fps.len());
-                            fps[j] = s(*rng.pick(&["a", "zz", "", "a,b"]));
+                            fps[j] = if rng.chance(0.3) {
+                                format!(" {}", fps[j])
+                            } else if rng.chance(0.3) {
+                                format!("{} ", fps[j])
+                            } else {
+                                s(*rng.pick(&["a", "zz", "", "a,b"]))
+                            };
                         }
                     }
                 }
@@ -601,6 +624,8 @@ pub fn random_session(rng: &mut Rng, mutate: bool) -> (Vec<String>, Vec<MCall>, 
                     if let MCall::Deriv(nm, p) = &mut calls[i] {
                         if rng.chance(0.5) {
                             p.arity = (p.arity % 10) + 1;
+                        } else if rng.chance(0.3) {
+                            *nm = format!("{} ", nm);
                         } else {
                             *nm = s(*rng.pick(&NAME_POOL[..]));
                         }
@@ -617,7 +642,7 @@ pub fn random_session(rng: &mut Rng, mutate: bool) -> (Vec<String>, Vec<MCall>, 
                 }
                 6 => {
                     let j = rng.below(names.len());
-                    names[j] = s(*rng.pick(&["a", "b", "", "x,y"]));
+                    names[j] = if rng.chance(0.3) { format!(" {}", names[j]) } else { s(*rng.pick(&["a", "b", "", "x,y"])) };
                 }
                 8 | 9 => {
                     // a model parameter that no function uses (and an initial guess that still has the
